@@ -9,7 +9,7 @@ MaxRules == IF Quick THEN 3 ELSE 4
 \* rule objects that compare equal and fail with equal errors must still be accounted one by one
 Repeats(k) == \E i, j \in DOMAIN k : i < j /\ k[i] = k[j]
 \* noteq: the backend renders negation with not-equals expressions of its own (the class templates are swapped inside a NOT)
-NeqKinds == {"ok1", "ok2", "okneg", "failNPH", "failPH"}
+NeqKinds == {"ok1", "ok2", "okneg", "failNPH", "failPH", "failU"}
 NeqCases == {[kinds |-> k, collect |-> c, corr |-> "none", dup |-> FALSE, noteq |-> TRUE] :
                k \in UNION {[1..n -> NeqKinds] : n \in 1..3}, c \in BOOLEAN}
 Cases == {[kinds |-> k, collect |-> c, corr |-> co, dup |-> FALSE] :
